@@ -2,7 +2,8 @@
    Known_load_shared (genuine: one incoming element merged/imported twice) and Known_load_rejected (the rollback path). *)
 From Coq Require Import PeanoNat Arith Lia.
 From AV Require Import Base.Bytes Base.Outcome Hash.HashModel Tree.Heap Tree.Ops Tree.Script Tree.Inv
-  Tree.InvProofsBase Tree.InvProofsCore Tree.InvProofsTree Tree.InvProofsPrim Tree.InvProofsRemove Tree.InvProofsNav
+  Tree.InvProofsBase Tree.InvProofsCore Tree.InvProofsTree Tree.InvProofsPrim Tree.InvProofsRemove Tree.InvProofsFiles
+  Tree.InvProofsNav
   Tree.Load Tree.InvLoad Tree.InvProofsLoadBase Tree.InvProofsLoadWalk Tree.InvProofsLoadMerge.
 From AV Require Xml.Parser.
 From AV Require Tree.LoadProofs.
@@ -167,5 +168,138 @@ Proof.
     + apply killedb_kept. apply Hkeep. apply Hkeep in Hp. econstructor; eauto.
 Qed.
 
+
+(* ---------- load_parsed ---------- *)
+Lemma load_parsed_core m filename root st w r w' :
+  Core w ->
+  (forall t w1 x, install PNone root w = Val (OK t, w1) ->
+     let w2 := mkWorld (w_nodes w1) (w_next w1)
+                       (w_files w1 ++ [mkFile m filename (Parser.p_version st) (Parser.p_standalone st)]) (w_models w1) in
+     nth_opt (w_models w2) (N.to_nat m) = Some x -> is_empty (m_files x) = false ->
+     merge_shared T LATEST name_definition_ref (fuel_of w2) (m_root x) (fold_right set_add [] (m_files x)) (it_id t)
+                  (N.of_nat (List.length (w_files w))) w2 = false) ->
+  r <> ER InvalidFileMerge ->
+  load_parsed T LATEST name_definition_ref m filename root st w = Val (r, w') -> Core w'.
+Proof.
+  intros C Hshared Hrej H. unfold load_parsed in H.
+  bstep H w0 wx E0; [|apply wget_inv in E0 as ([=] & _)]. apply wget_inv in E0 as ([= ->] & ->).
+  bstep H t w1 E1.
+  2:{ destruct (install_core _ _ _ _ _ C (or_introl eq_refl) E1) as (t' & [=] & _). }
+  destruct (install_core _ _ _ _ _ C (or_introl eq_refl) E1) as (t' & [= <-] & Eid & C1 & L1 & R1 & F1 & (nr & Hnr & Pnr) & Cl1).
+  specialize (Hshared t w1).
+  set (base := w_next w) in *. set (re := it_id t) in *.
+  bstep H w1' wx E2; [|apply wget_inv in E2 as ([=] & _)]. apply wget_inv in E2 as ([= ->] & ->).
+  bstep H x0 wx E3; [|apply get_model_inv in E3 as (? & _ & [=] & _)]. apply get_model_inv in E3 as (x0' & Hx0 & [= ->] & ->).
+  bstep H ov wx E4; [|apply wl_inv in E4 as (? & _ & [=] & _)]. apply wl_inv in E4 as (ov' & _ & [= ->] & ->).
+  assert (Hroots_old : forall k r0, nth_error (roots w1) k = Some r0 -> r0 < base).
+  { intros k r0 Hk. rewrite R1 in Hk. destruct (c_roots _ C _ _ Hk) as (n & Hn & _). apply C. eexists; eauto. }
+  assert (Hold_closed : forall p c, p < base -> lists w1 p c -> c < base).
+  { intros p c Hp (n & Hn & Hc). rewrite F1 in Hn by auto. assert (Hl : lists w p c) by (exists n; auto).
+    apply (c_up _ C) in Hl. destruct Hl as (nc & Hnc & _). apply C. eexists; eauto. }
+  destruct ov'.
+  - (* overlap: everything that was installed is dropped *)
+    bstep H u wk Ek.
+    2:{ apply kill_spec in Ek as ([=] & _). }
+    apply wfail_inv in H as (_ & ->).
+    eapply (core_kill [] base [] w1); [apply Core_mask; exact C1| | | |exact Ek].
+    + intros k r0 Hk. apply killedb_old. eauto.
+    + intros p [].
+    + intros p c Kp Hl. destruct (killedb_false _ _ _ _ Kp) as [Hp|[Hp|[]]].
+      * apply killedb_old. eauto.
+      * exfalso. destruct Hl as (n & Hn & _). assert (allocated w1 p) as Ha by (eexists; eauto). apply C1 in Ha. lia.
+  - bstep H u w2 E5; [|apply wput_inv in E5 as ([=] & _)]. apply wput_inv in E5 as (_ & ->).
+    set (w2 := mkWorld _ _ _ _) in *.
+    assert (S12 : same_tree w1 w2) by (apply st_models; reflexivity).
+    pose proof (Core_same_tree _ _ S12 C1) as C2.
+    bstep H x wx E6; [|apply get_model_inv in E6 as (? & _ & [=] & _)]. apply get_model_inv in E6 as (x' & Hx & [= ->] & ->).
+    bstep H rb w3 E7; [|apply wcatch_inv in E7 as (? & _ & [=])]. apply wcatch_inv in E7 as (rb' & E7 & [= ->]).
+    bstep H x3 wx E8; [|apply get_model_inv in E8 as (? & _ & [=] & _)]. apply get_model_inv in E8 as (x3' & Hx3 & [= ->] & ->).
+    bstep H w3' wx E9; [|apply wget_inv in E9 as ([=] & _)]. apply wget_inv in E9 as ([= ->] & ->).
+    bstep H keep wq E10; [|exfalso; exact (LoadProofs.errs_dfs_ids (fun _ => False) _ _ _ _ _ E10)].
+    pose proof (ro_dfs_ids _ _ _ _ _ E10) as ->.
+    bstep H u2 wk E11; [|apply kill_spec in E11 as ([=] & _)].
+    destruct rb' as [ub|eb].
+    2:{ (* the merge stage failed: the load reports InvalidFileMerge *)
+        exfalso. apply Hrej.
+        pose proof (LoadProofs.errs_merge_stage T LATEST name_definition_ref m x' re (N.of_nat (List.length (w_files w))) t st _ _ _ E7) as He.
+        red in He. subst eb.
+        apply wbind_inv in H as [(u3 & w5 & E12 & H) | (e5 & E12 & ->)]; [|discriminate E12].
+        apply wfail_inv in H as (-> & _). reflexivity. }
+    apply wret_inv in H as (_ & ->).
+    (* the stage: branch, then the index fills *)
+    apply wbind_inv in E7 as [(ua & wa & Ea & Etail) | (e & _ & [=])].
+    destruct (nfp_stage_tail m t st _ _ _ _ Etail) as (Tn & Tx & Tr).
+    assert (Sa3 : same_tree wa w3) by (apply nfp_same_tree; auto).
+    destruct (is_empty (m_files x')) eqn:Efirst.
+    + (* first load *)
+      destruct (first_load_core m re (N.of_nat (List.length (w_files w))) w2 (OK ua) wa C2) as (Ca & Na & Fa & Ra & Rm); [| |exact Ea|].
+      { exists nr. split; [rewrite Eid; exact Hnr|exact Pnr]. }
+      { intros k r0 Hk Heq. apply Hroots_old in Hk. subst r0. rewrite Eid in Hk. lia. }
+      pose proof (Core_same_tree _ _ Sa3 Ca) as C3.
+      assert (Hroot3 : m_root x3' = re).
+      { apply nth_opt_roots in Hx3. rewrite Tr, Rm in Hx3. congruence. }
+      rewrite Hroot3 in E10.
+      eapply (kill_first_core base re _ w3 keep w3 _ wk C3); [rewrite Eid; apply N.le_refl| | |exact E10|exact E11].
+      * intros k r0 Hk. rewrite Tr in Hk. destruct (Ra _ _ Hk) as [->|Hk2]; auto. right. eapply Hroots_old. exact Hk2.
+      * intros p c Hp (n & Hn & Hc). rewrite Tn, Fa in Hn by (rewrite Eid; lia).
+        eapply Hold_closed; eauto. exists n. auto.
+    + (* merge into the existing data *)
+      apply wbind_inv in Ea as [(mr & wb & Em & Ea) | (e & Em & [=])].
+      apply wcatch_inv in Em as (mr' & Em & [= ->]).
+      destruct mr' as [um|em].
+      2:{ apply wbind_inv in Ea as [(x1 & w6 & _ & Ea) | (e & _ & [=])].
+          apply wbind_inv in Ea as [(u6 & w7 & _ & Ea) | (e & _ & [=])].
+          apply wfail_inv in Ea as ([=] & _). }
+      apply wret_inv in Ea as (_ & ->).
+      unfold merge_file_data in Em.
+      apply wbind_inv in Em as [(xm & wm & Em1 & Em) | (e & _ & [=])].
+      apply get_model_inv in Em1 as (xm' & Hxm & [= ->] & ->).
+      rewrite Hx in Hxm. injection Hxm as <-.
+      apply wbind_inv in Em as [(wg & wm & Em2 & Em) | (e & _ & [=])].
+      apply wget_inv in Em2 as ([= ->] & ->).
+      apply wbind_inv in Em as [(ue & we & Eme & Em) | (e & _ & [=])].
+      apply wbind_inv in Em as [(x2 & wm & Em3 & Em) | (e & _ & [=])].
+      apply get_model_inv in Em3 as (x2' & Hx2 & [= ->] & ->).
+      destruct ue.
+      set (rt := m_root x').
+      assert (Hr_root : nth_error (roots w2) (N.to_nat m) = Some rt) by (apply nth_opt_roots; exact Hx).
+      assert (Hr_old : rt < base) by (eapply Hroots_old; rewrite <- Hr_root; reflexivity).
+      assert (Hold_up : forall c p, c < base -> par w2 c p -> p < base).
+      { intros c p Hc Hp. apply (proj1 (st_par _ _ _ _ S12)) in Hp.
+        assert (Hp0 : par w c p). { destruct Hp as (n & Hn & Hpp). rewrite F1 in Hn by auto. exists n. auto. }
+        apply par_alloc in Hp0; auto. apply C. auto. }
+      assert (Hrb : parent_in w2 re = PNone).
+      { unfold parent_in. cbn [w_nodes w2]. rewrite Eid. rewrite Hnr. exact Pnr. }
+      assert (Hnew_up : forall c p, base <= c -> par w2 c p -> base <= p).
+      { intros c p Hc Hp. apply (proj1 (st_par _ _ _ _ S12)) in Hp. destruct (N.eq_dec c base) as [->|Hne].
+        - destruct Hp as (n & Hn & Hpp). rewrite Hnr in Hn. injection Hn as <-. congruence.
+        - apply (Cl1 c p); auto. lia. }
+      assert (M0 : MI base rt re w2 [] [] w2).
+      { constructor.
+        - apply Core_mask. exact C2.
+        - reflexivity.
+        - reflexivity.
+        - intros p d _ [].
+        - intros d [].
+        - reflexivity.
+        - reflexivity.
+        - intros y [].
+        - intros c p Hc Hp. left. eapply Hnew_up; eauto. }
+      assert (Hrr : Reach w2 rt rt).
+      { constructor. destruct (c_roots _ C2 _ _ Hr_root) as (n & Hn & _). eexists; eauto. }
+      destruct (merge_ok T LATEST name_definition_ref base rt re w2 C2 Hr_old (ex_intro _ _ Hr_root) Hold_up Hrb
+                         (fuel_of w2) rt (fold_right set_add [] (m_files x')) re (N.of_nat (List.length (w_files w)))
+                         [] [] w2 we M0 Hrr) as (D' & Imp' & (Me & _ & _ & _) & _ & _);
+        [intros []|intros []|rewrite Eid; apply N.le_refl|left; reflexivity|apply Hshared; auto|exact Eme|].
+      assert (Seb : same_tree we wb).
+      { eapply stp_modify_node; [|exact Em]. intros n. split; reflexivity. }
+      pose proof (MI_same_tree _ _ _ _ _ _ _ _ Seb Me) as Ma.
+      pose proof (MI_same_tree _ _ _ _ _ _ _ _ Sa3 Ma) as M3.
+      assert (Hroot3 : m_root x3' = rt).
+      { apply nth_opt_roots in Hx3. rewrite (mi_roots _ _ _ _ _ _ _ M3), Hr_root in Hx3. congruence. }
+      rewrite Hroot3 in E10.
+      eapply (kill_merge_core base rt re w2 D' Imp' _ w3 keep w3 _ wk Hr_old M3); [|exact E10|exact E11].
+      intros k r0 Hk. rewrite (mi_roots _ _ _ _ _ _ _ M3) in Hk. destruct S12 as (_ & Sr & _). rewrite Sr in Hk. eauto.
+Qed.
 
 End LoadCore.
